@@ -901,3 +901,25 @@ def replay_request(ctx, path):
     print("observed:", a)
     print("expected:", e)
     return 0 if sort_answer(a) == e else 1
+
+
+def replay_known(ctx, pid, exe, class_doc):
+    """the witnesses of the known findings (known_findings.jsonl): a KNOWN-FINDING line for every finding whose
+    witness still fails on the implementation.  Returns {id: still failing?}"""
+    out = {}
+    for e in common.load_known_findings(pid):
+        still = False
+        for w in e.get("witnesses", []):
+            res = run_docs(exe, [("file:///known.spl", w["text"], [(w["request"], w["line"], w["col"])])], workers=1)
+            a = res[0][1][0]
+            exp = w["expected"]
+            if isinstance(exp, list) and exp and isinstance(exp[0], list):
+                exp = sorted(tuple(x) for x in exp)
+            elif isinstance(exp, list) and w["request"] not in ("references", "rename"):
+                exp = tuple(exp)
+            if sort_answer(a) != exp:
+                still = True
+        out[e["id"]] = still
+        if still:
+            ctx.known("%s: %s" % (e["id"], class_doc.get(e["id"], e.get("class", ""))))
+    return out
